@@ -1156,3 +1156,45 @@ def t_line_terminated(facts, res, tier):
                      "a final newline is glued to the next line of the including file, and every later line is reported one line too early" % ct[:80])
     if sites == 0:
         raise AnchorMissing("the conditional newline after a text line was not found in process()")
+
+
+# ----------------------------------------------------------------------------- C02 (redundant loads and the flags they set)
+
+
+@rule("T-OPT-LOAD-SIBLINGS", floor=3,
+      text="the optimiser removes a load whose operand the register already holds.  A load also sets N/Z, which the next branch may test, so "
+           "each of the three sibling removals (LDA, LDX, LDY) is conditioned on the optimiser's own flag knowledge (`flags == FlagsState::<reg>`, "
+           "or a look-ahead showing the flags are overwritten before they are used): removing `LDX b` after `LDY c` lets `BEQ` test c")
+def t_opt_load_siblings(facts, res, tier):
+    fn = facts.fn("optimize", "AssemblyCode")
+    found = {}
+    for n in walk(fn["body"]):
+        if n.get("k") != "match" or "mnemonic" not in norm(n["e"]):
+            continue
+        for a in n["arms"]:
+            pt = pat_text(a["pat"])
+            m = re.match(r"^(?:AsmMnemonic::)?(LDA|LDX|LDY)$", pt.strip())
+            if not m:
+                continue
+            reg = m.group(1)
+            for x in walk(a["body"]):
+                if x.get("k") == "assign" and root_name(x["l"]) == "remove_second":
+                    g = enclosing_guards(a["body"], x) or []
+                    conds = [c for (_, _, c, _) in g]
+                    # must compare the register knowledge with the operand ...
+                    if not any("dasm_operand" in c for c in conds):
+                        continue
+                    found.setdefault(reg, []).append((x, conds))
+    for reg in ("LDA", "LDX", "LDY"):
+        key = "T-OPT-LOAD-SIBLINGS:%s" % reg
+        res.inst(key, True, {"removal_sites": len(found.get(reg, []))})
+        if reg not in found:
+            res.fail(key + ":ANCHOR-MISSING", facts.where(fn), "the redundant-%s removal was not found in optimize()" % reg)
+            continue
+        for x, conds in found[reg]:
+            if not any("flags" in c for c in conds):
+                res.fail(key, facts.where(fn, x),
+                         "the redundant %s is removed without consulting the optimiser's flag knowledge (its siblings do): after the removal the N/Z flags are "
+                         "those of whatever was loaded last, and a following BEQ/BNE/BMI/BPL tests the wrong value (`X = b; Y = c; X = b; if (X)` branches on c)" % reg,
+                         {"guards": conds})
+                break
